@@ -48,6 +48,10 @@ fn boot_matrix(out: &mut EnumOut) {
     let (mut ok, mut err) = (0u64, 0u64);
     for (i, cfg) in cfgs.iter().enumerate() {
         let mut w = World::new(cfg.clone());
+        // key generation under the same resolver (faults included) and name
+        if cfg.nodes[0].deny.is_some() || i % 4 == 0 || crate::refnoise::Proto::parse(&cfg.nodes[0].name).is_err() {
+            w.apply(0, &crate::ops::Op::Keygen { node: 0 });
+        }
         w.finish();
         if w.nodes[0].build_result == "ok" {
             ok += 1;
